@@ -68,6 +68,8 @@ def sums_of(ctx: Ctx, fi: FunctionInfo, **kw) -> List[PathSummary]:
     if k not in cache:
         recs = {fq.rsplit(".", 1)[-1]: [f for f, _ in fields] for fq, fields in ctx.p.records().items()}
         kw.setdefault("pure_calls", set(recs) | {"Beat", "Decimal", "Fraction", "MSDParameter", "Beat.from_str", "Beat.tick"})  # immutable value types
+        kw.setdefault("sentinels", sorted(nm for nm, node in fi.module.top.items() if nm.startswith("_") and isinstance(node, (ast.Assign, ast.AnnAssign)) and isinstance(getattr(node, "value", None), ast.Call)
+                                          and ast.unparse(node.value) == "object()"))
         cache[k] = summaries(ctx, fi, fold=lambda e: try_ev(ctx, fi, e), records=recs, **kw)
     return cache[k]
 
@@ -120,6 +122,47 @@ def resolved(s: PathSummary, v: Optional[ast.AST], before: Optional[int] = None,
     return v
 
 
+_MUT = {"append", "extend", "insert", "add", "update", "pop", "popitem", "remove", "discard", "clear", "sort", "reverse", "setdefault", "appendleft", "popleft", "move_to_end", "write"}
+
+
+def _mutated_between(s: PathSummary, name: str, lo: int, hi: int) -> bool:
+    """Between its binding (effect lo) and effect hi the object held by *name* is changed in place (a mutating method, a store into it)."""
+    for e in s.effects[lo + 1:hi]:
+        if e.kind == "expr" and isinstance(e.value, ast.Call) and isinstance(e.value.func, ast.Attribute) and e.value.func.attr in _MUT and root_name(e.value.func.value) == name \
+                and isinstance(e.value.func.value, ast.Name):
+            return True
+        if e.kind in ("store", "aug", "delete") and isinstance(e.target, (ast.Subscript, ast.Attribute)) and root_name(e.target) == name and isinstance(e.target, ast.Subscript):
+            return True
+    return False
+
+
+def loop_built(s: PathSummary, name: str, before: int) -> Optional[ast.ListComp]:
+    """name = [] ; for T in IT: name.append(E)  (nothing else touches name before effect *before*, the loop ran on this path): [E for T in IT]."""
+    r = s.resolve(name, before)
+    if r is None or r[1].value is None or not _is_container(r[1].value) or isinstance(r[1].value, (ast.Dict, ast.Set)):
+        return None
+    touching = []
+    for i in range(r[0] + 1, before):
+        e = s.effects[i]
+        if e.kind == "expr" and isinstance(e.value, ast.Call) and isinstance(e.value.func, ast.Attribute) and root_name(e.value.func.value) == name:
+            touching.append((i, e))
+        elif e.kind in ("store", "aug", "delete") and root_name(e.target) == name:
+            return None
+    if len(touching) != 1:
+        return None
+    i, e = touching[0]
+    if e.value.func.attr != "append" or len(e.value.args) != 1 or not e.loops or not isinstance(e.value.func.value, ast.Name):
+        return None
+    L = e.loops[-1]
+    fe = next(((j, x) for j, x in enumerate(s.effects[:i]) if x.kind == "for" and x.line == L), None)
+    if fe is None or fe[0] < r[0]:
+        return None
+    others = [x for x in s.effects[fe[0] + 1:before] if L in x.loops and x is not e and x.kind in ("expr", "store", "aug", "delete", "break", "continue", "return", "raise", "yield")]
+    if others:
+        return None
+    return ast.ListComp(elt=e.value.args[0], generators=[ast.comprehension(target=fe[1].target, iter=fe[1].value, ifs=[], is_async=0)])
+
+
 def _is_container(v: ast.AST) -> bool:
     if isinstance(v, (ast.List, ast.Dict, ast.Set)) and not (v.elts if not isinstance(v, ast.Dict) else v.keys):
         return True
@@ -141,7 +184,7 @@ def closed(s: PathSummary, e: Optional[ast.AST], before: Optional[int] = None, d
         def visit_Name(self, n: ast.Name):
             if isinstance(n.ctx, ast.Load) and self.d > 0 and n.id not in keep:
                 r = s.resolve(n.id, self.before)
-                if r is not None and r[1].value is not None and _is_container(r[1].value):
+                if r is not None and r[1].value is not None and (_is_container(r[1].value) or _mutated_between(s, n.id, r[0], self.before)):
                     return n  # a container that is being filled keeps its name
                 if r is not None and (r[1].opaque or (opq is not None and n.id in opq)) and r[1].value is not None and isinstance(r[1].target, ast.Name) \
                         and not (isinstance(r[1].value, ast.Name) and r[1].value.id == n.id):
@@ -150,6 +193,9 @@ def closed(s: PathSummary, e: Optional[ast.AST], before: Optional[int] = None, d
                 if r is not None and r[1].value is not None and isinstance(r[1].target, (ast.Tuple, ast.List)) and all(isinstance(x, ast.Name) for x in r[1].target.elts):
                     # a, b = f(...)  : the name stands for element i of the call's result
                     i_ = [x.id for x in r[1].target.elts].index(n.id)
+                    val_ = r[1].value
+                    if isinstance(val_, (ast.Tuple, ast.List)) and len(val_.elts) == len(r[1].target.elts) and not any(isinstance(x, ast.Starred) for x in val_.elts):
+                        return T(self.d - 1, r[0]).visit(_copy.deepcopy(val_.elts[i_]))  # a, b = (x, y): the name is that element
                     return ast.Subscript(value=T(self.d - 1, r[0]).visit(_copy.deepcopy(r[1].value)), slice=ast.Constant(value=i_), ctx=ast.Load())
             return n
 
